@@ -70,9 +70,11 @@ class SourceBase:
             ctx.ev("end", name)
             return False, None
         item = self.items[self.idx]
+        ctx.ev("item", name, self.item_sigs[self.idx] if self.item_sigs else sig(item))
         self.idx += 1
-        ctx.ev("item", name, sig(item))
         return True, item
+
+    item_sigs = None
 
     @property
     def served(self):
